@@ -4,10 +4,12 @@ socket.connect), as the repository's own tests do."""
 from unittest import mock
 
 
-def run_script(stream, script, sel, max_extra=None):
+def run_script(stream, script, sel, max_extra=None, writes=None):
     """stream: bytes; script: list of int (chunk size) | "again" | "eof";
     sel: list of bool answers of selector.select(). After the script is used
     up the peer hands out what is left (<=256 per read) and then EOF.
+    writes: list of bool -- before the j-th readline() the host also write()s a command (the usual "got a line, send the next
+    command" step; added after seed C17h, a write() that took in pending input): what is read must not depend on it.
     Returns the trace."""
     from gscrib.printrun import device
     state = {"pos": 0, "i": 0, "closed": False, "sel": 0}
@@ -40,12 +42,19 @@ def run_script(stream, script, sel, max_extra=None):
 
     dev = device.Device()
     events = []
-    with mock.patch("socket.socket.connect"), mock.patch("socket.SocketIO.read", side_effect=fake_read):
+    writes = list(writes or [])
+    with mock.patch("socket.socket.connect"), mock.patch("socket.SocketIO.read", side_effect=fake_read), \
+            mock.patch("socket.SocketIO.write", side_effect=lambda data: len(data)):
         dev.connect("127.0.0.1:80")
         dev._selector = mock.Mock()
         dev._selector.select = fake_select
         limit = max_extra or (3 * len(stream) + len(script) + 12)
-        for _ in range(limit):
+        for j in range(limit):
+            if j < len(writes) and writes[j]:
+                try:
+                    dev.write(b"M105\n")
+                except Exception:
+                    pass
             try:
                 r = dev.readline()
             except Exception as e:
@@ -65,5 +74,5 @@ def run_script(stream, script, sel, max_extra=None):
             dev.disconnect()
         except Exception:
             pass
-    return {"meta": {"script": [str(x) for x in script], "sel": [bool(x) for x in sel]},
+    return {"meta": {"script": [str(x) for x in script], "sel": [bool(x) for x in sel], "writes": [bool(x) for x in writes]},
             "stream": list(stream), "ev": events}
